@@ -18,6 +18,7 @@ func main() {
 		NQuick:    400,
 		NThorough: 2500,
 		Corpus:    corpus,
+		VM:        true,
 	})
 }
 
